@@ -5,8 +5,12 @@ Engine E1.  Rasters are enumerated as *all* sequences of N (zone, category) cell
   tab_*    unrestricted table: agg {count, percentage} x nodata
   sel_*    restriction: every ordered sub-list of zone_ids / cat_ids (present ids + one absent id) and every pair
            of short sub-lists, x agg x nodata
+  csel_*   restriction by cat_ids only (every ordered sub-list, zone_ids absent): the affordable slice of sel_* for the
+           largest N of the non-finite family
   lay_*    3-D values: seven aggregates x layer index {0, -1} x nodata
   sel3_*   3-D values with zone_ids / cat_ids restrictions
+Families nf / nfa put -inf and +inf (next to NaN) into the 2-D value alphabet: the statement counts only cells whose
+value is "finite, not nodata", so such a cell belongs to no category and not to the zone's valid cells either.
 One rank = one call of xrspatial.zonal.crosstab, compared with the Counter model of xrmc/oracles/zonal.py.
 Rows and columns are matched by label; any row / column order is accepted."""
 import numpy as np
@@ -22,7 +26,9 @@ RULE = ("every sequence of N (zone, category) cells over the listed alphabets (r
         "then category letters, then the parameter setting) x every listed layout x agg x nodata; for the restriction "
         "spaces additionally every selection: zone_ids = each ordered sub-list (length 0..3, no repetition) of (zones "
         "present + absent zone 8) with cat_ids=None, cat_ids = each ordered sub-list (length 0..3) of (categories "
-        "present + absent category 7) with zone_ids=None, and each pair of sub-lists of length 0..2; 3-D: every "
+        "present + absent category 7) with zone_ids=None, and each pair of sub-lists of length 0..2 (csel spaces: only "
+        "the cat_ids sub-lists with zone_ids=None); value letters NaN, -inf, +inf are cells without category that do not "
+        "count as valid cells of their zone; 3-D: every "
         "sequence of N cells x L layers, seven aggregates, category dimension first (layer=0) or last (layer=-1).  "
         "One case = one call of zonal.crosstab.  A case is non-trivial when the expected table has a non-zero / "
         "defined entry; distinct = distinct digests of the returned table")
@@ -31,6 +37,9 @@ ASSUMPTIONS = [
     "zones / categories outside the alphabets and rasters with more than N cells are not explored (small-scope "
     "argument: the table is a function of the flattened (zone, category) sequence only)",
     "zone_ids / cat_ids lists without repeated ids; nodata_values is a finite number or None",
+    "non-finite VALUE cells (NaN, -inf, +inf) are in the domain (families nf, nfa, l2x): by the statement they are not "
+    "valid cells, i.e. they belong to no category / aggregate and not to the percentage denominator; the only "
+    "non-finite ZONE letter is NaN (+-inf zone cells are explored by C02 on the shared zone sort)",
     "row order, column order, dtypes and the index of the returned DataFrame are not asserted (labels are)",
     "percentage entries of a zone without any valid cell are not asserted (0/0; only non-empty rows are specified)",
     "3-D entries of a (zone, layer) without valid cell are not asserted (aggregate of an empty set); a ValueError "
@@ -39,7 +48,7 @@ ASSUMPTIONS = [
     "3-D values: the category dimension is the first (layer=0) or the last (layer=-1) one and carries a coordinate",
     "comparison tolerance rtol 1e-9 (atol 1e-12); counts are compared exactly within that tolerance",
 ]
-NAN = float("nan")
+NAN, INF = float("nan"), float("inf")
 ABSENT_ZONE, ABSENT_CAT = 8, 7
 AGG2 = ("count", "percentage")
 AGG3 = ("count", "sum", "mean", "min", "max", "std", "var")
@@ -53,6 +62,9 @@ FAMILIES = {
     "f20n": ((1.0, 2.0, 3.0, NAN), (0.0, 1.0, 2.0, NAN, 9.0), "f8", "f8", (9,)),
     "i12": ((1, 2, 3), (0, 1, 2, 9), "i8", "i4", (None, 9)),
     "i6": ((1, 2), (0, 1, 9), "i8", "i4", (None, 9)),
+    # non-finite value letters: two categories + every kind of non-finite cell (NaN sorts last, +inf last-but-NaN, -inf first)
+    "nf": ((1.0, 2.0, NAN), (0.0, 1.0, NAN, -INF, INF), "f8", "f8", (None, 1)),
+    "nfa": ((1.0, 2.0, NAN), (0.0, 1.0, NAN, -INF, INF), "f8", "f8", (None,)),
     # 3-D: value alphabet per layer cell
     "l2": ((1.0, 2.0, NAN), (1.0, 3.0, NAN), "f8", "f8", (None, 1)),
     "l2w": ((1.0, 2.0, NAN), (0.0, 1.0, 3.0, NAN), "f8", "f8", (None, 1)),
@@ -60,18 +72,22 @@ FAMILIES = {
     "l3": ((1.0, 2.0, NAN), (1.0, 3.0, NAN), "f8", "f8", (None,)),
     "l3b": ((1.0, 2.0, NAN), (1.0, 3.0), "f8", "f8", (None,)),
     "l2i": ((1, 2, 3), (0, 1, 3), "i4", "i8", (None, 1)),
+    "l2x": ((1.0, 2.0, NAN), (1.0, 3.0, -INF, INF), "f8", "f8", (None,)),
 }
 # (kind, family, N values, layers)
 PLAN = {
-    "quick": [("tab", "f12", (1, 2, 3, 4), 0), ("tab", "f20", (1, 2, 3), 0), ("tab", "i12", (1, 2, 3), 0),
+    "quick": [("tab", "f12", (1, 2, 3), 0), ("tab", "f12a", (4,), 0), ("tab", "f20", (1, 2, 3), 0),
+              ("tab", "i12", (1, 2, 3), 0),
               ("sel", "f12", (1, 2), 0), ("sel", "f12a", (3,), 0), ("sel", "i6", (1, 2), 0),
+              ("tab", "nf", (1, 2, 3), 0), ("sel", "nf", (1,), 0), ("sel", "nfa", (2,), 0), ("csel", "nfa", (3,), 0),
               ("lay", "l2w", (1,), 2), ("lay", "l2", (2,), 2), ("lay", "l3", (1,), 3), ("lay", "l3b", (2,), 3),
               ("lay", "l2i", (1, 2), 2),
               ("sel3", "l2", (1,), 2), ("sel3", "l2b", (2,), 2)],
     "thorough": [("tab", "f12", (1, 2, 3, 4, 5), 0), ("tab", "f20", (1, 2, 3, 4), 0), ("tab", "i12", (1, 2, 3, 4), 0),
                  ("sel", "f12", (1, 2, 3), 0), ("sel", "f20", (1, 2, 3), 0), ("sel", "i12", (1, 2, 3), 0),
+                 ("tab", "nf", (1, 2, 3, 4), 0), ("sel", "nf", (1, 2), 0), ("sel", "nfa", (3,), 0),
                  ("lay", "l2w", (1, 2), 2), ("lay", "l2", (3,), 2), ("lay", "l3", (1, 2), 3), ("lay", "l3b", (3,), 3),
-                 ("lay", "l2i", (1, 2, 3), 2),
+                 ("lay", "l2i", (1, 2, 3), 2), ("lay", "l2x", (2,), 2),
                  ("sel3", "l2", (1, 2), 2), ("sel3", "l2b", (3,), 2), ("sel3", "l3b", (1, 2), 3)],
 }
 
@@ -87,7 +103,11 @@ BOUNDS = {t: {"spaces": [dict(kind=k, family=f, zone_alphabet=[str(x) for x in F
               "agg_2d": list(AGG2), "agg_3d": list(AGG3), "layer_index": [0, -1],
               "absent_zone": ABSENT_ZONE, "absent_category": ABSENT_CAT, "layer_ids": list(LAYER_IDS),
               "selections": "zone lists <=3 | cat lists <=3 | pairs of lists <=2 (3-D: zone lists <=2 | cat lists <=2 | "
-                            "zone lists <=2 x cat lists <=1)"} for t, plan in PLAN.items()}
+                            "zone lists <=2 x cat lists <=1); kind csel: cat lists <=3 only, zone_ids absent",
+              "trimmed": ("the unrestricted N=4 table of family f12 runs with nodata_values=None only (tab_f12a_N4; "
+                          "nodata=2 stays at N<=3, nodata=9 in f20/i12) to pay for the non-finite families nf/nfa"
+                          if t == "quick" else "nothing")}
+          for t, plan in PLAN.items()}
 
 
 def _fmt(a):
@@ -144,13 +164,14 @@ class CrosstabSpace(Space):
         self.nzseq, self.nvseq = len(self.za) ** n, len(self.va) ** self.nvals
         self._vc = {}
         self.fint = self.zdt.startswith("i")
+        self.selkind = kind in ("sel", "csel")
         if kind in ("tab", "lay"):      # parameter settings do not depend on the raster: plain product
             self.fixed = self.variants((), ())
             self.size = self.nzseq * self.nvseq * len(self.fixed)
         else:
             self.fixed = None
             self.pz = [self._present(self.zseq(zi)) for zi in range(self.nzseq)]
-            if kind == "sel":
+            if self.selkind:
                 self.pc = [{nd: self._present([c for c in self.vseq(vi) if oz.valid(c, nd)]) for nd in self.nodata_opts}
                            for vi in range(self.nvseq)]
                 parts = [((zi, vi), sum(len(self.variants(self.pz[zi], self.pc[vi][nd], nd)) for nd in self.nodata_opts))
@@ -160,7 +181,7 @@ class CrosstabSpace(Space):
                          for zi in range(self.nzseq)]
             self.sum = SumSpace(parts)
             self.size = self.sum.size
-        self.weight = n * (1.0 if kind in ("tab", "sel") else 0.8)
+        self.weight = n * (1.0 if kind in ("tab", "sel", "csel") else 0.8)
 
     # ---- enumeration ---------------------------------------------------------------------------------
     def zseq(self, zi):
@@ -184,12 +205,15 @@ class CrosstabSpace(Space):
             v = [(s, None, None, a, nd, ly) for s in self.lay for a in AGG3 for nd in self.nodata_opts for ly in (0, -1)]
         else:
             az = ABSENT_ZONE if self.fint else float(ABSENT_ZONE)
-            if self.kind == "sel":
+            if self.selkind:
                 ac = ABSENT_CAT if self.vdt.startswith("i") else float(ABSENT_CAT)
                 zc = list(zones) + [az]
                 cc = list(cats) + [ac]
-                sel = [(zl, None) for zl in _sublists(zc, 3)] + [(None, cl) for cl in _sublists(cc, 3)] \
-                    + [(zl, cl) for zl in _sublists(zc, 2) for cl in _sublists(cc, 2)]
+                if self.kind == "csel":
+                    sel = [(None, cl) for cl in _sublists(cc, 3)]
+                else:
+                    sel = [(zl, None) for zl in _sublists(zc, 3)] + [(None, cl) for cl in _sublists(cc, 3)] \
+                        + [(zl, cl) for zl in _sublists(zc, 2) for cl in _sublists(cc, 2)]
                 v = [(s, zl, cl, a, nodata, None) for s in self.lay for zl, cl in sel for a in AGG2]
             else:
                 zc = list(zones) + [az]
@@ -209,7 +233,7 @@ class CrosstabSpace(Space):
         else:
             pi, local = self.sum.locate(rank)
             zi, vi = self.sum.parts[pi][0]
-            if self.kind == "sel":
+            if self.selkind:
                 cats = self.pc[vi]
             else:
                 per = self.sum.parts[pi][1] // self.nvseq
@@ -272,6 +296,8 @@ class CrosstabSpace(Space):
             "|layer=%d" % layer if L else "")
         ident = ident.replace(" ", "")
         what = "crosstab3d" if L else "crosstab2d"
+        if not self.vdt.startswith("i") and np.isinf(v).any():
+            out.count("cases_with_inf_value_cell")
 
         if L:
             rows, cols, tab = oz.crosstab3d_table(z, v, LAYER_IDS[:L], zone_ids, cat_ids, agg, nodata)
